@@ -137,3 +137,17 @@ def fam_limits(nmin: int, nmax: int, *, batch: int = 2, tnames=('TA', 'TB', 'TC'
                     for f in range(n):
                         yield Config(spec=spec, requested=req, batch=batch, faults=(f,), stutter=stutter)
                         yield Config(spec=spec, requested=req, batch=batch, died=(f,), stutter=stutter)
+
+
+def fam_e3(bases: Iterable[Config], *, backends=('fork', 'spawn'), workers=(1, 2, None), cpu_count: int = 2,
+           die_exit0=(False,), liveness: bool = True):
+    """Real ProcessRunner configurations over the virtual OS for the given base configurations."""
+    from .e3 import E3Config
+    for b in bases:
+        for be in backends:
+            for mw in workers:
+                for dx in die_exit0:
+                    if dx and not b.died:
+                        continue
+                    yield E3Config(base=b, backend=be, max_workers=mw, cpu_count=cpu_count, die_exit0=dx,
+                                   liveness_choice=liveness)
